@@ -936,6 +936,10 @@ def asarray(path, array, dtype=None, accessmode='r',
                             f"'{firstchunk.dtype.name}'")
         dtype = firstchunk.dtype
         bd = create_datadir(path=path, overwrite=overwrite)
+        # never write through symbolic links that carry our file names
+        for fn in Array._protectedfiles:
+            if path.joinpath(fn).is_symlink():
+                path.joinpath(fn).unlink()
         datapath = path.joinpath(Array._datafilename)
         arraylen = firstchunk.shape[0]
         with open(datapath, 'wb') as df:
